@@ -23,6 +23,8 @@ def sig(c):
             if any(o.startswith("ok") for o in ob):
                 if st.get("has_truth") and st.get("truth_height", 0) - st.get("notified", 0) >= 2:
                     return "rpc-confirmation:confirmed-with-notified-height-lagging>=2"
+                if st.get("has_truth") and st.get("truth_height", 0) < st.get("notified", 0):
+                    return "rpc-confirmation:confirmed-with-notified-height-above-node-height"
                 return "rpc-confirmation:confirmed"
         return "rpc-confirmation:other"
     return str(fn)
